@@ -340,8 +340,10 @@ class ScoredCollector(Collector):
         # Heap containing top N (score, 0-docnum) pairs
         self.items = []
         # Minimum score a document must have to make it into the top N. This is
-        # used by the block-quality optimizations
-        self.minscore = 0
+        # used by the block-quality optimizations. None means there is no bar
+        # yet (the top N list is not full), so nothing may be skipped: a
+        # document scoring zero or less still belongs in the list
+        self.minscore = None
         # Number of times the matcher was replaced (for debugging)
         self.replaced_times = 0
         # Number of blocks skipped by quality optimizations (for debugging)
@@ -512,7 +514,7 @@ class TopCollector(ScoredCollector):
                 heapify(items)
                 # The list is no longer full, so any score can make the top N
                 # again
-                self.minscore = 0
+                self.minscore = None
                 return
 
     def results(self):
